@@ -9,7 +9,9 @@ Open Scope string_scope.
 
 Inductive eopt :=
 | OCtx (k v : string)        (* WithCtxValue(k, v); the value is rendered as text *)
-| OFmt (prefix : string).    (* WithIssueFormatter(f) with f = "set the message to prefix ++ code" *)
+| OFmt (prefix : string) (skip : option string).
+    (* WithIssueFormatter(f) with f = "set the message to prefix ++ code", except for issues of code [skip], which f leaves
+       without a message (they keep the empty message: there is no falling back to another formatter) *)
 
 (** the map as an association list without duplicate keys, newest binding first *)
 Fixpoint del (k : string) (m : list (string * string)) : list (string * string) :=
@@ -24,7 +26,7 @@ Fixpoint mget (m : list (string * string)) (k : string) : option string :=
   | (k', v) :: r => if String.eqb k k' then Some v else mget r k
   end.
 
-Record ectx := { e_fmt : option string;               (* None: the default formatter (conf.IssueFormatter) *)
+Record ectx := { e_fmt : option (string * option string);               (* None: the default formatter (conf.IssueFormatter) *)
                  e_vals : list (string * string) }.
 
 (** NewExecCtx: both fields assigned, whatever the recycled object held *)
@@ -35,7 +37,7 @@ Definition new_ectx_legacy (dirty : ectx) : ectx := {| e_fmt := None; e_vals := 
 Definition apply_opt (c : ectx) (o : eopt) : ectx :=
   match o with
   | OCtx k v => {| e_fmt := e_fmt c; e_vals := mset (e_vals c) k v |}
-  | OFmt p => {| e_fmt := Some p; e_vals := e_vals c |}
+  | OFmt p sk => {| e_fmt := Some (p, sk); e_vals := e_vals c |}
   end.
 
 Definition call_ctx (dirty : ectx) (opts : list eopt) : ectx := fold_left apply_opt opts (new_ectx dirty).
@@ -44,18 +46,25 @@ Definition call_ctx_legacy (dirty : ectx) (opts : list eopt) : ectx := fold_left
 (** ctx.Get(k) inside any callback of the call *)
 Definition ctx_value (dirty : ectx) (opts : list eopt) (k : string) : option string := mget (e_vals (call_ctx dirty opts)) k.
 (** the formatter the call's issues go through when their test has none of its own *)
-Definition call_fmt (opts : list eopt) : option string := e_fmt (call_ctx {| e_fmt := None; e_vals := [] |} opts).
+Definition call_fmt (opts : list eopt) : option (string * option string) := e_fmt (call_ctx {| e_fmt := None; e_vals := [] |} opts).
 
 (** the specification: the last option of each kind decides *)
 Fixpoint last_ctx (opts : list eopt) (k : string) : option string :=
   match opts with
   | [] => None
   | OCtx k' v :: r => match last_ctx r k with Some w => Some w | None => if String.eqb k k' then Some v else None end
-  | OFmt _ :: r => last_ctx r k
+  | OFmt _ _ :: r => last_ctx r k
   end.
-Fixpoint last_fmt (opts : list eopt) : option string :=
+Fixpoint last_fmt (opts : list eopt) : option (string * option string) :=
   match opts with
   | [] => None
-  | OFmt p :: r => match last_fmt r with Some q => Some q | None => Some p end
+  | OFmt p sk :: r => match last_fmt r with Some q => Some q | None => Some (p, sk) end
   | OCtx _ _ :: r => last_fmt r
+  end.
+
+(** the message a formatter option gives an issue of code [code] *)
+Definition fmt_message (f : string * option string) (code : string) : string :=
+  match snd f with
+  | Some sk => if String.eqb sk code then "" else fst f ++ code
+  | None => fst f ++ code
   end.
